@@ -16,6 +16,18 @@ import ast
 
 
 class ReplaceMultiTargetAssign(ast.NodeTransformer):
+    def __init__(self):
+        self._temptup = "_temptup"
+
+    def visit(self, node):
+        if isinstance(node, (ast.Module, ast.FunctionDef)):
+            # The temporary tuple must not be one of the names of the function
+            used = {n.id for n in ast.walk(node) if isinstance(n, ast.Name)}
+            used |= {a.arg for a in ast.walk(node) if isinstance(a, ast.arg)}
+            while self._temptup in used:
+                self._temptup = "_" + self._temptup
+
+        return super().visit(node)
 
     def visit_Assign(self, node):
         if len(node.targets) != 1 or not hasattr(node.targets[0], "elts"):
@@ -36,7 +48,7 @@ class ReplaceMultiTargetAssign(ast.NodeTransformer):
             ]
 
         _temptup = self.visit(
-            ast.Assign(targets=[ast.Name(id="_temptup")], value=node.value)
+            ast.Assign(targets=[ast.Name(id=self._temptup)], value=node.value)
         )
 
         single_assigns = [
@@ -44,7 +56,7 @@ class ReplaceMultiTargetAssign(ast.NodeTransformer):
                 ast.Assign(
                     targets=[ast.Name(id=node.targets[0].elts[i].id)],
                     value=ast.Subscript(
-                        value=ast.Name(id="_temptup"), slice=ast.Constant(value=i)
+                        value=ast.Name(id=self._temptup), slice=ast.Constant(value=i)
                     ),
                 )
             )
